@@ -137,6 +137,13 @@ def run_case(case, tier):
         d2 = {}
         recs = c01.edit_layout(recs, rng, d2)
         desc["edits"] = d2.get("edits")
+        if rng.random() < 0.15 and not any(r.raw is not None and r.tag in ("MODEL ", "ENDMDL") for r in recs):
+            # several conformations whose atoms differ (models / alternate locations with atoms, residues or chains
+            # missing, mutants): atoms copied from one conformation into another still belong to their residue -
+            # insertion code included - when the list is consulted
+            from .. import multiconf
+            recs, _dm = multiconf.build(rng, base=recs)
+            classes.append("conformations-that-differ")
         if rng.random() < 0.25:
             # a ligand of the fragment library (amines, amidinium, guanidinium, carboxylate, thiol, phosphate ...):
             # hetero residues can be listed too
@@ -264,7 +271,8 @@ def run_case(case, tier):
         return util.finish(case, viol, counts, classes, False, desc, inconclusive="raised")
     Lset = set(L)
     # (a) census of the restricted run
-    cen = census_mon.check(lim, text, viol, counts, classes, titrate_only=Lset)
+    cen = census_mon.check(lim, text, viol, counts, classes, titrate_only=Lset,
+                           allow_topup_extras="conformations-that-differ" in classes)
     nin = nout = 0
     if cen and cen["models"]:
         first = cen["models"][min(cen["models"])]
@@ -279,6 +287,19 @@ def run_case(case, tier):
                 viol.append({"cls": "unlisted-group-titrates", "msg": "%s: %s is titratable but %r is not in the list" % (cname, g["label"], resid)})
             if resid not in Lset and g["use"]:
                 viol.append({"cls": "unlisted-group-reported", "msg": "%s: %s is reported but not listed" % (cname, g["label"])})
+    # (b'') the list does not depend on the conformation: a group on one and the same atom position (an atom that
+    # was copied from another conformation included) titrates in all conformations that hold it, or in none
+    seen_t = {}
+    for cname in lim.rec["names"]:
+        for g in lim.rec["confs"][cname]["groups"]:
+            if g["rtype"] == "CYS" and g.get("bridge"):
+                continue
+            k_ = (tuple(g["akey"]), g["type"])
+            if k_ in seen_t and seen_t[k_][1] != g["titratable"]:
+                viol.append({"cls": "listed-in-one-conformation-only", "msg": "%s: titratable=%r in conformation %s, %r in %s" % (
+                    g["label"], seen_t[k_][1], seen_t[k_][0], g["titratable"], cname)})
+                break
+            seen_t.setdefault(k_, (cname, g["titratable"]))
     # (b') a listed group is never discarded in favour of a group that does not titrate (an unlisted one)
     for cname in lim.rec["names"]:
         gl_ = lim.rec["confs"][cname]["groups"]
